@@ -9,7 +9,7 @@ META = {
                  "duration declared in the library (namespace scope, static members, function-local statics) is const/"
                  "constexpr without mutable sub-objects; R20.2 every external function the library calls is on an allow-list "
                  "of MT-safe functions (one reason per entry) and none is on the POSIX list of functions that need not be "
-                 "thread-safe; R20.3 the only raw pointers stored in library objects point into the object's own buffer.",
+                 "thread-safe; R20.3 the only raw pointers stored in library objects point into the object's own buffer. R20.4: after a method released a descriptor member with ::close(), the member takes a new value and is never set back to a copy taken before the close.",
     "explanation": "Effect analysis over declarations and the resolved call graph: a statement about the program text, hence "
                    "about all schedules. Every obligation is enumerated and must be discharged. Byte-identical outputs follow "
                    "from determinism plus absence of sharing; they are not observed here.",
